@@ -345,7 +345,7 @@ def eval_undiscounted_symbolic(sx):
 
 def jobs(tier):
     quick = tier == 'quick'
-    o = dict(timeout_ms=15000, budget_s=(300 if tier == 'quick' else 600), max_paths=3000)
+    o = dict(timeout_ms=15000, budget_s=(120 if tier == 'quick' else 600), max_paths=3000)
     for i, sh in enumerate(SHAPES):
         for g in ['1/2', '9/10']:
             for combo in policies(sh, tier):
